@@ -196,6 +196,104 @@ theorem unknown_symbol_raises {s : State} (h : Reach s) (t : String) {x : String
       · exact hD (congrArg Prod.fst hp)
       · exact hT (congrArg Prod.fst hp)
 
+/-! ## every route to an element / isotope ends at the same object as plain subscripting -/
+
+/-- a symbol of `element_base` contains no dash: as an 'A-Sym' string it means "no isotope" -/
+theorem base_symbols_parse : ∀ r ∈ base, parseIsotope r.symbol = (r.symbol, 0) := by decide +kernel
+
+/-- `table.symbol(sym)`, `getattr(table, sym)`, `table.isotope(sym)` and `table.name(name)` of a
+    row of `element_base` return the element object recorded with that row's atomic number … -/
+theorem element_routes_number {s : State} (h : Reach s) (t : String) {r : BaseRow} (hr : r ∈ base) {i : Nat} :
+    ((step base s (.symbol t r.symbol)).2 = .obj i → s.obj i = some (.element t r.z)) ∧
+    ((step base s (.attr t r.symbol)).2 = .obj i → s.obj i = some (.element t r.z)) ∧
+    ((step base s (.isotope t r.symbol)).2 = .obj i → s.obj i = some (.element t r.z)) ∧
+    ((step base s (.name t r.name)).2 = .obj i → s.obj i = some (.element t r.z)) := by
+  have hs := inv_reach h
+  refine ⟨?_, ?_, ?_, ?_⟩
+  · intro hres
+    simp only [step] at hres
+    cases ha : s.attrs.get? (t, r.symbol) with
+    | none => simp [ha] at hres
+    | some j => simp only [ha] at hres; cases hres; exact elem_of_attr hs base_symbols_distinct base_DT_free hr ha
+  · intro hres
+    simp only [step] at hres
+    cases ha : s.attrs.get? (t, r.symbol) with
+    | none => simp [ha] at hres
+    | some j => simp only [ha] at hres; cases hres; exact elem_of_attr hs base_symbols_distinct base_DT_free hr ha
+  · intro hres
+    simp only [step, base_symbols_parse r hr] at hres
+    cases ha : s.attrs.get? (t, r.symbol) with
+    | none => simp [ha] at hres
+    | some j =>
+      have ho := elem_of_attr hs base_symbols_distinct base_DT_free hr ha
+      simp only [ha, ho, ↓reduceIte] at hres
+      cases hres; exact ho
+  · intro hres
+    exact elem_of_name hs base_DT_free base_names_distinct hr
+      (s' := (step base s (.name t r.name)).1) (by rw [← hres])
+
+/-- … which is the object `table[Z]` returns: all element routes give one object -/
+theorem element_routes_same_object {s : State} (h : Reach s) (t : String) {r : BaseRow} (hr : r ∈ base)
+    {i j : Nat} (hz : (step base s (.getZ t r.z)).2 = .obj j)
+    (hroute : (step base s (.symbol t r.symbol)).2 = .obj i ∨ (step base s (.attr t r.symbol)).2 = .obj i ∨
+      (step base s (.isotope t r.symbol)).2 = .obj i ∨ (step base s (.name t r.name)).2 = .obj i) :
+    i = j := by
+  have hs := inv_reach h
+  have hj : s.obj j = some (.element t r.z) := by
+    have := getZ_key hs hz
+    obtain ⟨o, ho⟩ := obj_of_keyOf this
+    cases o with
+    | element t' z' => rw [keyOf_element ho] at this; cases this; exact ho
+    | isotope e a => obtain ⟨_, _, _, hk⟩ := keyOf_isotope hs ho; rw [hk] at this; cases this
+    | ion w q =>
+      rcases keyOf_ion hs ho with ⟨_, _, _, hk⟩ | ⟨_, _, _, _, _, _, hk⟩ <;> (rw [hk] at this; cases this)
+  obtain ⟨h1, h2, h3, h4⟩ := element_routes_number (i := i) h t hr
+  have hi : s.obj i = some (.element t r.z) := by
+    rcases hroute with hh | hh | hh | hh
+    · exact h1 hh
+    · exact h2 hh
+    · exact h3 hh
+    · exact h4 hh
+  exact unique_element hs hi hj
+
+/-- `table.isotope('A-Sym')` is `table[Z][A]`: if the string parses to (symbol of row r, A ≠ 0),
+    the object it returns is the object `element[A]` returns for the element `table[r.z]` -/
+theorem isotope_string_same_object {s : State} (h : Reach s) (t x : String) {r : BaseRow} (hr : r ∈ base)
+    (hx : (parseIsotope x).1 = r.symbol) (hn : (parseIsotope x).2 ≠ 0) {e i j : Nat}
+    (he : (step base s (.getZ t r.z)).2 = .obj e)
+    (hj : (step base s (.iso e (parseIsotope x).2.toNat)).2 = .obj j)
+    (hi : (step base s (.isotope t x)).2 = .obj i) : i = j := by
+  have hs := inv_reach h
+  obtain ⟨k, hk, hkt, _, _, hne⟩ := key_matches_isotope_string h hi
+  obtain ⟨_, hka, e', nm, hoi, hsym⟩ := hne hn
+  obtain ⟨t1, z1, hoe', hki⟩ := keyOf_isotope hs hoi
+  rw [hki] at hk; cases hk
+  simp only at hkt; subst hkt
+  -- e' is the element with symbol r.symbol of this table
+  have hz1 : z1 = r.z := by
+    have : s.symName base e' = (base.row? z1).map fun r => (r.symbol, r.name) := by
+      simp [State.symName, State.elemOf, hoe']
+    rw [this] at hsym
+    cases hrow : base.row? z1 with
+    | none => simp [hrow] at hsym
+    | some r' =>
+      simp only [hrow, Option.map_some, Option.some.injEq, Prod.mk.injEq] at hsym
+      have := row_of_symbol base_symbols_distinct hr (row?_mem hrow) (hsym.1.trans hx)
+      subst this
+      have hz := List.find?_some hrow
+      simp only [decide_eq_true_eq] at hz
+      exact hz.symm
+  subst hz1
+  obtain ⟨_, t2, z2, hoe, hkj⟩ := iso_key hs (s' := (step base s (.iso e (parseIsotope x).2.toNat)).1)
+    (by rw [← hj])
+  have hkey := getZ_key hs he
+  rw [keyOf_element hoe] at hkey
+  simp only [Option.some.injEq, Key.mk.injEq, and_true] at hkey
+  obtain ⟨rfl, rfl⟩ := hkey
+  have : e' = e := unique_element hs hoe' hoe
+  subst this
+  exact unique hs hki hkj
+
 /-! ## iteration -/
 
 /-- `for el in table`: increasing Z, every element of the table exactly once -/
